@@ -1,12 +1,15 @@
 package mon
 
 import (
+	"encoding/binary"
 	"fmt"
 	"strings"
 	"time"
 
+	"github.com/go-i2p/common/certificate"
 	"github.com/go-i2p/common/destination"
 	"github.com/go-i2p/common/encrypted_leaseset"
+	"github.com/go-i2p/common/key_certificate"
 	"github.com/go-i2p/common/keys_and_cert"
 	"github.com/go-i2p/common/lease_set"
 	"github.com/go-i2p/common/lease_set2"
@@ -336,6 +339,7 @@ func runC09(c *core.Ctx) {
 		c09One(c, paths, p.s, p.c, r, "known-codes")
 	})
 	c.Exhaustive(fmt.Sprintf("all %d (signing, crypto) pairs over codes 0..20,255,256,65280,65534,65535 x 0..8,255,256,65280,65534,65535 through %d API paths", len(pairs), len(paths)))
+	c.Job("reused-inputs", c.N(400, 8000), func(i int, r *core.Rand) { c09ReusedInputs(c, r) })
 	c.Job("sampled-unknown", c.N(3000, 60000), func(i int, r *core.Rand) {
 		s, cr := r.Pick(65536), r.Pick(65536)
 		switch i % 3 {
@@ -346,6 +350,103 @@ func runC09(c *core.Ctx) {
 		}
 		c09One(c, paths, s, cr, r, "sampled")
 	})
+}
+
+// c09ReusedInputs: identities are built one after another from ONE certificate builder and ONE
+// payload slice that the caller keeps reusing for the next certificate, alternating permitted
+// and prohibited key types. Every identity that was returned is looked at again after each
+// later step: it must still not declare a prohibited type (a constructor that keeps the
+// caller's builder storage would let an accepted identity turn into a prohibited one).
+func c09ReusedInputs(c *core.Ctx, r *core.Rand) {
+	bd := certificate.NewCertificateBuilder()
+	payload := make([]byte, 4)
+	type heldT struct {
+		kac    *keys_and_cert.KeysAndCert
+		router bool
+		site   string
+		s, cr  int
+	}
+	var held []heldT
+	good := [][2]int{{7, 4}, {7, 0}, {1, 0}, {0, 0}, {2, 4}, {3, 0}}
+	bad := [][2]int{{8, 4}, {7, 5}, {7, 6}, {7, 7}, {11, 4}, {11, 0}, {8, 0}, {4, 0}, {5, 4}, {6, 0}}
+	for step := 0; step < 8; step++ {
+		pr := good[r.Pick(len(good))]
+		if step%2 == 1 {
+			pr = bad[r.Pick(len(bad))]
+		}
+		s, cr := pr[0], pr[1]
+		router := r.Chance(1, 2)
+		k, _ := gen.KACOf(r, s, cr)
+		var cert *certificate.Certificate
+		var err error
+		site := "certificate.CertificateBuilder"
+		c.Call("c09/reused-inputs", []byte(fmt.Sprint(s, cr, step)), func() {
+			if r.Chance(1, 2) {
+				if _, err = bd.WithKeyTypes(s, cr); err == nil {
+					cert, err = bd.Build()
+				}
+			} else {
+				site = "certificate.NewCertificateWithType"
+				binary.BigEndian.PutUint16(payload[0:], uint16(s))
+				binary.BigEndian.PutUint16(payload[2:], uint16(cr))
+				cert, err = certificate.NewCertificateWithType(5, payload)
+			}
+		})
+		c.Eval(1)
+		if err == nil && cert != nil {
+			pk, e1 := lib.CryptoKeyOf(cr, k.CryptoKey())
+			spk, e2 := lib.SigningKeyOf(s, k.SigningKey())
+			if e1 == nil && e2 == nil {
+				var kac *keys_and_cert.KeysAndCert
+				c.Call("c09/reused-inputs/build", []byte(fmt.Sprint(s, cr, step)), func() {
+					if router {
+						site += " -> router_identity.NewRouterIdentity"
+						if ri, err := router_identity.NewRouterIdentity(pk, spk, cert, k.Padding()); err == nil && ri != nil {
+							kac = ri.KeysAndCert
+						}
+						return
+					}
+					site += " -> destination.NewDestination"
+					kc, err := key_certificate.KeyCertificateFromCertificate(cert)
+					if err != nil {
+						return
+					}
+					kk, err := keys_and_cert.NewKeysAndCert(kc, pk, k.Padding(), spk)
+					if err != nil {
+						return
+					}
+					if d, err := destination.NewDestination(kk); err == nil && d != nil {
+						kac = d.KeysAndCert
+					}
+				})
+				if kac != nil {
+					held = append(held, heldT{kac, router, site, s, cr})
+					c.Bucket("reused-inputs/identity-returned")
+				}
+			}
+		}
+		for hi, h := range held {
+			ys, yc, ok := typesOf(h.kac)
+			if !ok {
+				continue
+			}
+			isBad := rm.ProhibitedInDestination(ys, yc)
+			what := "Destination"
+			if h.router {
+				isBad, what = rm.ProhibitedInRouterIdentity(ys, yc), "RouterIdentity"
+			}
+			c.Nontrivial([]byte("reused"), []byte(fmt.Sprint(hi, step, ys, yc, h.s, h.cr, h.router)))
+			if isBad {
+				clause := "prohibited-type-yielded"
+				if hi < len(held)-1 || !(ys == h.s && yc == h.cr) {
+					clause = "returned-identity-later-declares-prohibited-type"
+				}
+				c.Violate(h.site, clause, gen.Shape{"sig": ys, "crypto": yc, "requested_sig": h.s, "requested_crypto": h.cr, "class": "reused-inputs"}, nil,
+					fmt.Sprintf("%s built for types %d/%d declares %d/%d after the caller's builder / payload slice was reused %d step(s) later", what, h.s, h.cr, ys, yc, step))
+				return
+			}
+		}
+	}
 }
 
 func c09One(c *core.Ctx, paths []identPath, sig, cr int, r *core.Rand, class string) {
